@@ -13,6 +13,7 @@ EXPLANATION = (
     "while the append is not, and the ephemeral range constant equals 20000..30000. 'Exactly' over all store "
     "contents depends on query exactness (C05) and is not decided.")
 EXPLANATION += " Also decided: every Ok return of vanish lies behind the Ok outcome of both queries; deindex deletes, under the same conditions, every entry index_event puts."
+EXPLANATION += ' Also decided: in every caller, Ok-outcomes of deindex and deindex_id alternate on every path to Ok and address the same event.'
 ASSUMPTIONS = []
 
 
